@@ -168,6 +168,7 @@ func constNumber(v ssa.Value) (float64, bool) {
 }
 
 func runC37(c *Ctx) {
+	checkParameterGrammarAgreement(c)
 	val := c.MustFunc(pkgJCfg + ":(*Config).Validate")
 	if val == nil {
 		return
